@@ -42,21 +42,24 @@ ASSUMPTIONS = [
     "(C13_first_false_decides); messages of passing assertions are unconstrained",
     "f-string / int() of celpy values: modelled for str, int, bool, None and ASCII numerals (other texts are not compared)",
     "ResourceFunction: reconcile_krm_resource is an arbitrary function in the model (Section variable); the real "
-    "function is run against a sentinel API that refuses every access (preconditions part); the postconditions "
-    "part needs the in-memory cluster and is pending (RF_AVAILABLE)",
+    "function is run against a sentinel API that refuses every access (preconditions part) and, as a readonly "
+    "function over an existing object, against the in-memory cluster harness/cluster.py (postconditions part)",
 ]
 TRUSTED = ["in-process wrapper around celpy.InterpretedRunner.evaluate that records, per evaluation site, "
            "what celpy did"]
 
-# ResourceFunctions are run against a *sentinel* API object that records and refuses every
-# attribute access (mode "rf"): enough to observe "preconditions decided => cluster not touched,
-# locals not evaluated".
-# TODO(coordinator): set RF_AVAILABLE to True and implement `run_rf_cluster` once harness/cluster.py
-# (in-memory kr8s API double with a call log) exists: reconcile ResourceFunctions whose preconditions
-# CONTINUE against the double, so that postconditions are reached, and require that a non-None
-# postcondition outcome is the result and `return` is not evaluated
+# ResourceFunctions are run (a) against a *sentinel* API object that records and refuses every
+# attribute access (mode "rf"): "preconditions decided => cluster not touched, locals not
+# evaluated"; (b) when harness/cluster.py (in-memory kr8s API double with a call log) is importable,
+# against that double (mode "rfc": a readonly function whose object exists, so that the
+# postconditions are reached): "preconditions decided => empty call log; postconditions decided =>
+# that outcome is the result and `return` is not evaluated"
 # (model theorems: P_C13.C13_rf_cluster_not_touched, C13_rf_post_body_not_evaluated).
-RF_AVAILABLE = False
+try:
+    import cluster as _cluster_mod          # noqa: F401
+    RF_AVAILABLE = True
+except Exception:                           # pragma: no cover
+    RF_AVAILABLE = False
 
 LOC = "fn"
 KINDS = ["ok", "depSkip", "skip", "retry", "permFail"]
@@ -532,6 +535,103 @@ def term_vf(case, out) -> str:
     return f"CVf {pre} {pre_raw} {locals_} {ret} {base} {cstr(LOC)} {c_obs(out['obs'])} {trace}"
 
 
+RFC_OBJECT = {"apiVersion": "test.koreo.dev/v1", "kind": "TestResource",
+              "metadata": {"name": "obj", "namespace": "ns"}, "spec": {"v": 1}}
+
+
+def run_rfc(case):
+    """A real readonly ResourceFunction against the in-memory cluster holding its object."""
+    import celpy
+    from cluster import Cluster
+    from koreo.resource_function.prepare import prepare_resource_function
+    from koreo.resource_function.reconcile import reconcile_resource_function
+    from koreo.resource_function.structure import ResourceFunction
+    b = Builder()
+    spec = {"apiConfig": {"apiVersion": "test.koreo.dev/v1", "kind": "TestResource", "plural": "testresources",
+                          "name": "obj", "namespace": "ns", "readonly": True},
+            "resource": {"spec": {"v": 1}}}
+    if case["preds"] is not None:
+        spec["preconditions"] = [b.spec(p) for p in case["preds"]]
+    if case.get("locals") is not None:
+        spec["locals"] = b.spec(case["locals"])
+    if case.get("post") is not None:
+        spec["postconditions"] = [b.spec(p) for p in case["post"]]
+    if case.get("ret") is not None:
+        spec["return"] = b.spec(case["ret"])
+    prepared = run_async(prepare_resource_function("k", spec))
+    if not (isinstance(prepared, tuple) and isinstance(prepared[0], ResourceFunction)):
+        return None
+    fn = prepared[0]
+    cl = Cluster(objects=[RFC_OBJECT])
+    with recording() as log:
+        try:
+            r = run_async(reconcile_resource_function(cl, LOC, fn, OWNER, celpy.json_to_cel(b.inputs)))
+            obs = observe(r.outcome)
+            if obs == ["none"]:
+                obs = ["val", ["n"]]
+        except Exception as e:
+            obs = ["raised", type(e).__name__]
+    site_of = {id(fn.preconditions): "pre", id(fn.local_values): "locals",
+               id(fn.postconditions): "post", id(fn.return_value): "return"}
+    site_of.pop(id(None), None)
+    trace, raws = [], {}
+    for rn, x in log:
+        st = site_of.get(id(rn), "resource")
+        if st == "resource" and trace and trace[-1] == "resource":
+            continue
+        trace.append(st)
+        raws[st] = x
+    return {"obs": obs, "trace": trace, "raws": raws, "calls": [c["method"] for c in cl.calls],
+            "has": {"pre": fn.preconditions is not None, "locals": fn.local_values is not None,
+                    "post": fn.postconditions is not None, "return": fn.return_value is not None}}
+
+
+def term_rfc(case, out) -> str:
+    def elems(key, has):
+        return "None" if not out["has"][has] else "(Some " + clist([doc_tree(p) for p in case[key]], c_tree) + ")"
+
+    def site(name):
+        if not out["has"][name]:
+            return None
+        return out["raws"].get(name, ["raise", True])
+
+    trace = clist(out["trace"], lambda s: SITES[s])
+    return (f"CRfc {elems('preds', 'pre')} {copt(out['raws'].get('pre'), c_raw)} {copt(site('locals'), c_raw)} "
+            f"{elems('post', 'post')} {copt(out['raws'].get('post'), c_raw)} {copt(site('return'), c_raw)} "
+            f"{cstr(LOC)} {cnat(len(out['calls']))} {c_obs(out['obs'])} {trace}")
+
+
+def oracle_rfc(case, out, pre_obs, post_obs):
+    obs, trace = out["obs"], out["trace"]
+    if obs[0] == "raised":
+        return (escape_signature("rf", obs[1], out["raws"].values()),
+                f"reconcile_resource_function raised {obs[1]}")
+    unloc = lambda m: re.sub(r"`[^`]*`", "`_`", m)
+
+    def same(a, b):
+        return a[:3] == b[:3] and (a[0] != "out" or unloc(a[3]) == unloc(b[3]))
+
+    if pre_obs is not None and pre_obs[0] not in ("none", "raised"):
+        if out["calls"]:
+            return ("rf: cluster touched although the preconditions decided",
+                    f"preconditions gave {pre_obs} but the API calls {out['calls']} were made")
+        if [s for s in trace if s != "pre"]:
+            return ("rf: body evaluated although the preconditions decided",
+                    f"preconditions gave {pre_obs} but sites {trace} were evaluated")
+        if not same(obs, pre_obs):
+            return ("rf: result is not the precondition outcome",
+                    f"preconditions gave {pre_obs} but the function returned {obs}")
+        return None
+    if "post" in trace and post_obs is not None and post_obs[0] not in ("none", "raised"):
+        if "return" in trace:
+            return ("rf: return evaluated although the postconditions decided",
+                    f"postconditions gave {post_obs} but sites {trace} were evaluated")
+        if not same(obs, post_obs):
+            return ("rf: result is not the postcondition outcome",
+                    f"postconditions gave {post_obs} but the function returned {obs}")
+    return None
+
+
 def term_rf(case, out) -> str:
     pre = "None" if not out["has"]["pre"] else "(Some " + clist([doc_tree(p) for p in case["preds"]], c_tree) + ")"
     pre_raw = copt(out["raws"].get("pre"), c_raw)
@@ -949,9 +1049,45 @@ def gen_rf(ctx: Ctx):
         yield {"mode": "rf", "preds": ps if ps else None, "locals": rng.choice(RF_LOCALS), "tag": "rf-random"}
 
 
+RFC_RETURNS = [None, M(("r", L(["cel", "=resource.spec.v", 1]))), M(("r", L(["err", "=1/0"]))),
+               M(("r", L(["err", "=resource.spec.nope"])))]
+
+
+def gen_rfc(ctx: Ctx):
+    rng = ctx.rng
+    # postconditions: every kind x truth for lists <= 2 (preconditions absent or passing)
+    for n in (1, 2):
+        for kinds in itertools.product(KINDS, repeat=n):
+            for truth in itertools.product([True, False], repeat=n):
+                post = [pred(["in", t], k, ["lit", f"post message {i}"], ["lit", 20 + i])
+                        for i, (k, t) in enumerate(zip(kinds, truth))]
+                pre = None if (n + sum(truth)) % 2 else [pred(["in", True], "skip", ["lit", "pre"])]
+                yield {"mode": "rfc", "preds": pre, "locals": RF_LOCALS[(n + sum(truth)) % 2], "post": post,
+                       "ret": RFC_RETURNS[1 + (len(kinds) + sum(truth)) % 3], "tag": "rfc-exhaustive"}
+    n_cases = 150 if ctx.quick() else 2500
+
+    def plist(n):
+        ps = []
+        p_false = rng.choice([0.0, 0.1, 0.3, 0.6])
+        noise = rng.choice([0.0, 0.1, 0.3])
+        while len(ps) < n:
+            p = rand_pred(rng, len(ps), p_false, noise)
+            if vf_ok(p):
+                ps.append(p)
+        return ps or None
+
+    for _ in range(n_cases):
+        pre = plist(rng.choice([0, 0, 1, 2, 4]))
+        post = plist(rng.choice([0, 1, 2, 3, 6, 20]))
+        yield {"mode": "rfc", "preds": pre, "locals": rng.choice(RF_LOCALS[:2] + [None]), "post": post,
+               "ret": rng.choice(RFC_RETURNS), "tag": "rfc-random"}
+
+
 def gen_cases(ctx: Ctx):
     for c in corpus_cases("C13"):
         yield c
+    if RF_AVAILABLE:
+        yield from gen_rfc(ctx)
     yield from gen_exhaustive(ctx)
     yield from gen_positions(ctx)
     yield from gen_special(ctx)
@@ -965,7 +1101,7 @@ def gen_cases(ctx: Ctx):
 # --------------------------------------------------------------------------
 
 def nontrivial(case) -> bool:
-    ps = case["preds"] or []
+    ps = (case["preds"] or []) + (case.get("post") or [])
     vs = [view(p) for p in ps]
     return len(ps) >= 2 and any(v["a"][0] != "bool" or v["a"][1] is False for v in vs)
 
@@ -1063,8 +1199,42 @@ def check_rf(ctx: Ctx, case):
     return term_rf(case, out)
 
 
+def check_rfc(ctx: Ctx, case):
+    if not RF_AVAILABLE:
+        ctx.count("skipped:rfc (harness/cluster.py not available)")
+        return None
+    out = run_rfc(case)
+    if out is None:
+        ctx.count("skipped:rfc does not prepare")
+        return None
+
+    def alone(ps):
+        if not ps:
+            return None
+        g = run_pred({"preds": ps})
+        return g[1] if g else None
+
+    bad = oracle_rfc(case, out, alone(case["preds"]), alone(case.get("post")))
+    if bad:
+        sig, why = bad
+        b2 = Builder()
+        spec = {"preconditions": [b2.spec(p) for p in case["preds"] or []],
+                "postconditions": [b2.spec(p) for p in case.get("post") or []]}
+        ctx.fail(Failure(signature=sig, what=why, case=case,
+                         observed={"spec": spec, "inputs": b2.inputs, "result": out["obs"], "trace": out["trace"],
+                                   "api_calls": out["calls"]}))
+    for st in out["trace"]:
+        ctx.count(f"rfc-site:{st}")
+    ctx.count(f"rfc-calls:{len(out['calls'])}")
+    if has_raise((case["preds"] or []) + (case.get("post") or [])):
+        return None
+    return term_rfc(case, out)
+
+
 def check_one(ctx: Ctx, case):
     mode = case.get("mode", "pred")
+    if mode == "rfc":
+        return check_rfc(ctx, case)
     if mode == "vf":
         return check_vf(ctx, case)
     if mode == "rf":
@@ -1089,16 +1259,10 @@ def run(ctx: Ctx):
         if term is not None:
             cases.append(case)
             terms.append(term)
-    if RF_AVAILABLE:
-        run_rf_cluster(ctx)
-    else:
+    if not RF_AVAILABLE:
         ctx.count("rf-postconditions:pending (harness/cluster.py not available)")
     if ctx.model_ok:
         ctx.correspond("evaluate_predicates / reconcile_value_function vs Predicates.v", "Corr_C13", cases, terms)
-
-
-def run_rf_cluster(ctx: Ctx):   # pragma: no cover - see RF_AVAILABLE
-    raise NotImplementedError("needs harness/cluster.py")
 
 
 def replay(ctx: Ctx, data):
